@@ -44,4 +44,7 @@ def translated : List String := ["AddBalance_balance_1(read_k_GetBalance_ctx_den
 /-- every rejecting guard of the translated functions, in source order -/
 def guards : List String := ["AddBalance: math.MaxUint64-balance < amount", "IncreaseMTSupply: math.MaxUint64-supply < amount", "Keeper.IssueMT: err := k.IncreaseMTSupply(ctx, denomID, mt.GetID(), amount); err != nil", "Keeper.IssueMT: err := k.AddBalance(ctx, denomID, mt.GetID(), amount, recipient); err != nil", "Keeper.MintMT: err := k.IncreaseMTSupply(ctx, denomID, mtID, amount); err != nil", "Keeper.EditMT: mt, err := k.GetMT(ctx, denomID, mtID); err != nil", "Keeper.TransferOwner: srcOwnerAmount < amount", "Keeper.BurnMT: srcOwnerAmount < amount", "Keeper.TransferDenomOwner: err := k.Authorize(ctx, denomID, srcOwner); err != nil", "Keeper.TransferDenomOwner: err := k.UpdateDenom(ctx, denom); err != nil", "Keeper.Authorize: !found", "Keeper.Authorize: owner.String() != denom.Owner", "msgServer.IssueDenom: sender, err := sdk.AccAddressFromBech32(msg.Sender); err != nil", "msgServer.MintMT: sender, err := sdk.AccAddressFromBech32(msg.Sender); err != nil", "msgServer.MintMT: recipient, err = sdk.AccAddressFromBech32(msg.Recipient); err != nil", "msgServer.MintMT: err := m.Keeper.Authorize(ctx, msg.DenomId, sender); err != nil", "msgServer.MintMT: !m.Keeper.HasMT(ctx, msg.DenomId, mtID)", "msgServer.MintMT: err := m.Keeper.MintMT(ctx, msg.DenomId, mtID, msg.Amount, recipient); err != nil", "msgServer.MintMT: mt, err := m.Keeper.IssueMT(ctx, msg.DenomId, m.Keeper.genMTID(ctx), msg.Amount, msg.Data, recipient); err != nil", "msgServer.MintMT: mt, err := m.Keeper.GetMT(ctx, msg.DenomId, mtID); err != nil", "msgServer.EditMT: sender, err := sdk.AccAddressFromBech32(msg.Sender); err != nil", "msgServer.EditMT: err := m.Keeper.Authorize(ctx, msg.DenomId, sender); err != nil", "msgServer.EditMT: err := m.Keeper.EditMT(ctx, msg.DenomId, msg.Id, msg.Data, sender); err != nil", "msgServer.TransferMT: sender, err := sdk.AccAddressFromBech32(msg.Sender); err != nil", "msgServer.TransferMT: recipient, err := sdk.AccAddressFromBech32(msg.Recipient); err != nil", "msgServer.TransferMT: err := m.Keeper.TransferOwner(ctx, msg.DenomId, msg.Id, msg.Amount, sender, recipient); err != nil", "msgServer.BurnMT: sender, err := sdk.AccAddressFromBech32(msg.Sender); err != nil", "msgServer.BurnMT: err := m.Keeper.BurnMT(ctx, msg.DenomId, msg.Id, msg.Amount, sender); err != nil", "msgServer.TransferDenom: sender, err := sdk.AccAddressFromBech32(msg.Sender); err != nil", "msgServer.TransferDenom: recipient, err := sdk.AccAddressFromBech32(msg.Recipient); err != nil", "msgServer.TransferDenom: err := m.Keeper.TransferDenomOwner(ctx, msg.Id, sender, recipient); err != nil"]
 
+/-- every statement of the translated functions executed for its effect, with its nesting depth, in source order -/
+def effects : List String := ["AddBalance: d0 store.Set(types.KeyBalance(addr, denomID, mtID), bz)", "SubBalance: d0 store.Set(types.KeyBalance(addr, denomID, mtID), bz)", "IncreaseMTSupply: d0 store.Set(types.KeySupply(denomID, mtID), bz)", "decreaseMTSupply: d0 store.Set(types.KeySupply(denomID, mtID), bz)", "Keeper.Transfer: d0 k.SubBalance(ctx, denomID, mtID, amount, from)", "Keeper.IssueDenom: d0 k.SetDenom(ctx, denom)", "Keeper.IssueMT: d0 k.SetMT(ctx, denomID, mt)", "Keeper.IssueMT: d0 k.IncreaseDenomSupply(ctx, denomID)", "Keeper.EditMT: d1 k.SetMT(ctx, denomID, newMT)", "Keeper.BurnMT: d0 k.SubBalance(ctx, denomID, mtID, amount, owner)", "Keeper.BurnMT: d0 k.decreaseMTSupply(ctx, denomID, mtID, amount)", "Keeper.TransferDenomOwner: d0 denom.Owner = dstOwner.String()"]
+
 end Irismod.Gen.PureMt
